@@ -6,7 +6,8 @@ messages, pinned ok, tuple-valued expect; wrong_msg; comparers; attempt-based cr
 message flag; partial_credit; ordered; debug) x an input alphabet per family (a match for every
 alternative, near misses, the empty string, unicode garbage; for lists every tuple of the right
 length) x attempt numbers.  Every call that returns is checked against the structural invariants
-of the statement; calls that raise are C02's business and only counted.
+of the statement (and, without debug, that no message quotes a stored answer the student did not type); calls that raise
+are C02's business and only counted.
 
 Further families: positional correspondence of entries and inputs (flat, interleaved groupings, nested lists); call
 histories of a debug=False grader shared with a debug=True parent, including parent calls that raise; item graders
@@ -29,6 +30,8 @@ RULE = ('configuration grammar x input alphabet x attempts per grader family, al
         '(grades / ok values) occur among its calls')
 EXPLANATION = 'states = distinct configurations; transitions = real grader calls (one per input x attempt)'
 ASSUMPTIONS = ['calls that raise are not judged here (C02)',
+               'stored answers in messages: judged for the kinds whose answers are distinctive strings (not the bare digits of the '
+               'Numerical kinds); an answer the student typed himself may be echoed',
                'an entry that may have matched an alternative with pinned ok is only required to have ok in {True, False, "partial"}',
                'an ok pinned on an answer whose grade_decimal is not 1 is no pin: the ItemGrader documentation says it is ignored, '
                'so such an entry must be self-consistent like any other',
@@ -104,6 +107,23 @@ def result_problem(res, n_inputs, debug, pinned_possible, allow_single_for_list=
     return None
 
 
+def stored_answer_leak(res, inp, secrets, skip_entries=False):
+    """'the author's stored answers appear in messages only when debug=True': a stored answer that the student did not type
+    must not be quoted by any message of a debug=False grader.  Returns the first (secret, message) found, or None."""
+    typed = '\x00'.join(inp) if isinstance(inp, list) else inp
+    if 'input_list' in res:
+        texts = [res['overall_message']] + ([] if skip_entries else [e['msg'] for e in res['input_list']])
+    else:
+        texts = [res['msg']]
+    for secret in secrets:
+        if secret in typed:
+            continue
+        for t in texts:
+            if secret in t:
+                return secret, t
+    return None
+
+
 def call(g, inp, attempt):
     def body(ch):
         try:
@@ -158,6 +178,13 @@ class ConfigFamily(Family):
                     return Result(p[0], True,
                                   viol('%s:%s' % (self.name, p[0]), '%s; input %r attempt %r: %s -> %r' % (c['label'], inp, att, p[1], res),
                                        None, res), calls)
+                if c.get('secrets') and not c['debug']:
+                    leak = stored_answer_leak(res, inp, c['secrets'], skip_entries=bool(c.get('entry_debug')))
+                    if leak:
+                        return Result('stored-answer-in-message', True,
+                                      viol('%s:stored-answer-in-message' % self.name,
+                                           '%s; input %r attempt %r: the stored answer %r, which the student did not type, is quoted by the '
+                                           'message %r of a grader without debug' % (c['label'], inp, att, leak[0], leak[1]), None, res), calls)
                 if 'input_list' in res:
                     shapes.add(tuple((e['ok'], round(e['grade_decimal'], 6)) for e in res['input_list']))
                 else:
@@ -251,55 +278,55 @@ def _singlelist_parts():
 
 
 ITEM_KINDS = {
-    'String': dict(make=lambda **kw: StringGrader(**kw), e=('cat', 'dog', 'emu'),
+    'String': dict(secrets=['cat', 'dog', 'emu'], make=lambda **kw: StringGrader(**kw), e=('cat', 'dog', 'emu'),
                    inputs=['cat', 'dog', 'emu', ' Cat', '', 'ünï—²', 'cat dog']),
     # accept_any / accept_nonempty: the expect values are irrelevant, the matched answer's credit and ok are reported
     'StringAcceptAny': dict(make=lambda **kw: StringGrader(accept_any=True, min_words=1, explain_minimums='msg', **kw),
                             e=('cat', 'dog', 'emu'), inputs=['cat', 'anything at all', '', ' ', 'ünï—²']),
     'StringAcceptNonempty': dict(make=lambda **kw: StringGrader(accept_nonempty=True, min_length=3, explain_minimums=None, **kw),
                                  e=('cat', 'dog', 'emu'), inputs=['cat', 'ab', '', 'long enough', 'ünï—²']),
-    'Formula': dict(make=lambda **kw: FormulaGrader(variables=['x'], **kw), e=('x+1', '2*x', 'x^2'),
+    'Formula': dict(secrets=['x+1', '2*x', 'x^2'], make=lambda **kw: FormulaGrader(variables=['x'], **kw), e=('x+1', '2*x', 'x^2'),
                     inputs=['1+x', 'x*2', 'x*x', 'x+1.00001', '', 'ünï—²', '0*x']),
     'Numerical': dict(make=lambda **kw: NumericalGrader(**kw), e=('2', '3', '5'),
                       inputs=['2', '3.0', '5', '2.05', '', 'ünï—²', '-2']),
-    'Matrix': dict(make=lambda **kw: MatrixGrader(**kw), e=('[1,2]', '[3,4]', '[5,6]'),
+    'Matrix': dict(secrets=['[1,2]', '[3,4]', '[5,6]'], make=lambda **kw: MatrixGrader(**kw), e=('[1,2]', '[3,4]', '[5,6]'),
                    inputs=['[1,2]', '[3,4]', '[5,6]', '[1,2.1]', '', 'ünï—²', '[0,0]']),
-    'MatrixEntryFlat': dict(make=lambda **kw: MatrixGrader(entry_partial_credit=0.3, **kw), e=('[1,2]', '[3,4]', '[5,6]'),
+    'MatrixEntryFlat': dict(secrets=['[1,2]', '[3,4]', '[5,6]'], make=lambda **kw: MatrixGrader(entry_partial_credit=0.3, **kw), e=('[1,2]', '[3,4]', '[5,6]'),
                             inputs=['[1,2]', '[1,4]', '[5,0]', '[0,0]', '', '[1,2,3]']),
-    'MatrixEntryProp': dict(make=lambda **kw: MatrixGrader(entry_partial_credit='proportional', suppress_matrix_messages=True, **kw),
+    'MatrixEntryProp': dict(secrets=['[[1,2],[3,4]]', '[[1,0],[0,1]]', '[[5,6],[7,8]]'], make=lambda **kw: MatrixGrader(entry_partial_credit='proportional', suppress_matrix_messages=True, **kw),
                             e=('[[1,2],[3,4]]', '[[1,0],[0,1]]', '[[5,6],[7,8]]'),
                             inputs=['[[1,2],[3,4]]', '[[1,2],[3,0]]', '[[1,0],[0,4]]', '[[0,0],[0,0]]', '[1,2]', '']),
-    'FormulaLinear': dict(make=lambda **kw: FormulaGrader(variables=['x'], **kw),
+    'FormulaLinear': dict(secrets=['x^2', 'x+1', '2*x'], make=lambda **kw: FormulaGrader(variables=['x'], **kw),
                           e=({'comparer': LinearComparer(proportional=0.5, offset=0.3, linear=0.1), 'comparer_params': ['x^2']},
                              {'comparer': LinearComparer(), 'comparer_params': ['x+1']},
                              {'comparer': LinearComparer(equals=0.8, proportional=0.2), 'comparer_params': ['2*x']}),
                           inputs=['x^2', '3*x^2', 'x^2+1', '2*x^2-1', 'x', '', 'x+1', '4*x']),
     # comparers that attach their own message to a full-credit verdict (the answer's credit / pinned ok still decide)
-    'FormulaComparerMsg': dict(make=lambda **kw: FormulaGrader(variables=['x'], **kw),
+    'FormulaComparerMsg': dict(secrets=['x^2', 'x+1', '2*x'], make=lambda **kw: FormulaGrader(variables=['x'], **kw),
                           e=({'comparer': LinearComparer(equals_msg='spot on', proportional=0.5), 'comparer_params': ['x^2']},
                              {'comparer': LinearComparer(equals_msg='exactly'), 'comparer_params': ['x+1']},
                              {'comparer': _chatty_comparer, 'comparer_params': ['2*x']}),
                           inputs=['x^2', '3*x^2', 'x^2+1', '2*x^2-1', 'x', '', 'x+1', '4*x']),
-    'SingleList': dict(make=lambda **kw: SingleListGrader(subgrader=StringGrader(), **kw), e=('a,b', 'c,d', 'e,f'),
+    'SingleList': dict(secrets=['a,b', 'c,d', 'e,f'], make=lambda **kw: SingleListGrader(subgrader=StringGrader(), **kw), e=('a,b', 'c,d', 'e,f'),
                        inputs=['b,a', 'c,d', 'e,f', 'a', 'a,z', 'a,b,c', '', 'ünï—²', 'a,,b']),
-    'SingleListNoPartial': dict(make=lambda **kw: SingleListGrader(subgrader=StringGrader(), partial_credit=False, ordered=True, **kw),
+    'SingleListNoPartial': dict(secrets=['a,b', 'c,d', 'e,f'], make=lambda **kw: SingleListGrader(subgrader=StringGrader(), partial_credit=False, ordered=True, **kw),
                                 e=('a,b', 'c,d', 'e,f'), inputs=['a,b', 'b,a', 'c,d', 'a', 'a,b,c', '']),
-    'Interval': dict(make=lambda **kw: IntervalGrader(**kw), e=('[1,2]', '(0,1]', '[0,infty)'),
+    'Interval': dict(secrets=['[1,2]', '(0,1]', '[0,infty)'], make=lambda **kw: IntervalGrader(**kw), e=('[1,2]', '(0,1]', '[0,infty)'),
                      inputs=['[1,2]', '(1,2]', '(0,1]', '[0,infty)', '[1,3]', '', 'ünï—²']),
     # ---- slim kinds: a code path that builds or combines results which the kinds above do not reach, reduced credit grammar
     # shape mismatches graded wrong with an explanation instead of raised (MatrixGrader.check_response, the non-suppressed returns)
-    'MatrixShapeExplained': dict(slim=True,
+    'MatrixShapeExplained': dict(secrets=['[1,2]', '[3,4]', '[5,6]'], slim=True,
                                  make=lambda **kw: MatrixGrader(shape_errors=False,
                                                                 answer_shape_mismatch=dict(is_raised=False, msg_detail='shape'), **kw),
                                  e=('[1,2]', '[3,4]', '[5,6]'),
                                  inputs=['[1,2]', '[3,4]', '[5,6]', '[1,2,3]', '[1,2]+[1,2,3]', '1', '[3,4]+[1,2]*[1,2,3]', '']),
-    'MatrixShapeSilent': dict(slim=True, thorough_only=True,
+    'MatrixShapeSilent': dict(secrets=['[1,2]', '[3,4]', '[5,6]'], slim=True, thorough_only=True,
                               make=lambda **kw: MatrixGrader(shape_errors=False, entry_partial_credit='proportional',
                                                              answer_shape_mismatch=dict(is_raised=False, msg_detail=None), **kw),
                               e=('[1,2]', '[3,4]', '[5,6]'),
                               inputs=['[1,2]', '[3,0]', '[5,6]', '[1,2,3]', '[1,2]+[1,2,3]', '1', '']),
     # a validation pattern: inputs that fail it are graded wrong with / without a message before any answer is looked at
-    'StringValidationMsg': dict(slim=True,
+    'StringValidationMsg': dict(secrets=['cat', 'dog', 'emu'], slim=True,
                                 make=lambda **kw: StringGrader(validation_pattern='[a-z]+', explain_validation='msg', **kw),
                                 e=('cat', 'dog', 'emu'), inputs=['cat', 'dog', 'emu', 'CAT', 'c4t', '', 'ünï—²', 'gnu']),
     'StringValidationQuiet': dict(slim=True, thorough_only=True,
@@ -307,7 +334,7 @@ ITEM_KINDS = {
                                                                  invalid_msg='', **kw),
                                   e=('cat', 'dog', 'emu'), inputs=['cat', 'CAT', 'c4t', '', 'ünï—²']),
     # comparers answering in every return form a check function may use (ItemGrader.standardize_cfn_return)
-    'FormulaComparerForms': dict(slim=True, make=lambda **kw: FormulaGrader(variables=['x'], **kw),
+    'FormulaComparerForms': dict(secrets=['x^2', 'x+1', '2*x'], slim=True, make=lambda **kw: FormulaGrader(variables=['x'], **kw),
                                  e=({'comparer': _forms_comparer(np.True_, 'Partial', np.False_), 'comparer_params': ['x^2']},
                                     {'comparer': _forms_comparer({'grade_decimal': 1}, {'grade_decimal': 0.75, 'msg': 'three quarters'},
                                                                  {'grade_decimal': 0}), 'comparer_params': ['x+1']},
@@ -391,7 +418,7 @@ class ItemGraders(ConfigFamily):
                                 answers = (lambda combo=combo: (lambda p: tuple(p[i][1] for i in combo))(alt_pool(*fresh())))
                             else:
                                 answers = (lambda fixed=tuple(pool[i][1] for i in combo): fixed)
-                            yield dict(label=label, debug=debug, pinned=pinned, inputs=k['inputs'],
+                            yield dict(label=label, debug=debug, pinned=pinned, inputs=k['inputs'], secrets=k.get('secrets'),
                                        make=(lambda answers=answers, wm=wm, cfn=cfn, cmsg=cmsg, debug=debug:
                                              k['make'](answers=answers(), wrong_msg=wm,
                                                        attempt_based_credit=cfn, attempt_based_credit_msg=cmsg, debug=debug)))
@@ -483,6 +510,7 @@ class ListGraders(ConfigFamily):
                                 continue
                             label = 'ListGrader %s partial_credit=%s attempt_based_credit=%s msg=%s debug=%s' % (lname, pc, cname, cmsg, debug)
                             yield dict(label=label, debug=debug, pinned=pinned, inputs=inputs,
+                                       secrets=(['x^2', '[3,4]'] if lname == 'mixed_children' else ['cat', 'dog', 'emu']),
                                        entry_debug=(True if 'debug_' in lname else None),
                                        make=(lambda mk=mk, pc=pc, cfn=cfn, cmsg=cmsg, debug=debug:
                                              mk(partial_credit=pc, attempt_based_credit=cfn, attempt_based_credit_msg=cmsg, debug=debug)))
